@@ -7,13 +7,98 @@ Leg M: TLC checks (MC_Reuse) that on every (training frame, follow-up frame, for
 Leg R: every case is executed: fit, then spec.get_model_matrix / model_matrix(spec, ...) on the
        follow-up data (also with the pickled spec); observed exception class, warning
        categories, names and cells are compared with the model.
+Leg S: the object that carries out a replay has a past (MC_ReuseSession): one materializer over the follow-up data is
+       first asked for fresh formulas / the recorded spec, then for the recorded spec; TLC proves the outcome independent
+       of the past when every call starts from empty caches (and refutes the design that keeps the evaluated factors:
+       the recorded kind is compared where a factor is evaluated, a cache hit is never compared), every history is
+       replayed on one materializer object and the last outcome judged like a replay by a new object.
 """
 from __future__ import annotations
 
 import json
 
 from ..common import Ctx, pmap, jhash
-from .. import reuselib
+from ..tlc import MachineryError, read_emitted, run_tlc, workdir
+from .. import matlib, reuselib
+
+
+def replay_session(group):
+    """One (training frame, follow-up frame, formula) with every history TLC emitted for it: the spec is recorded once, every history
+    gets its own materializer object over the follow-up data (ModelSpec.get_materializer - the object spec.get_model_matrix builds and
+    throws away), the calls before the last one are carried out whatever they answer, the last one (the recorded spec) is judged."""
+    import warnings
+    from formulaic import model_matrix
+
+    first = group[0]
+    base = {"formula": first["formula"], "t": first["t"], "u": first["u"]}
+    Tdf = matlib.gamma_frame(first["train"])
+    Udf = matlib.gamma_frame(first["follow"], index_kind=["default", "unsorted", "strings"][(first["t"] + first["u"] + len(first["formula"])) % 3])
+    try:
+        spec = model_matrix(first["formula"], Tdf, context={}).model_spec
+    except Exception as e:  # noqa
+        return [{**base, "clause": "session:fit-failed", "observed": type(e).__name__ + ": " + str(e)[:100]}], 0, 0
+    bad, n, prior_ok = [], 1, 0
+
+    class _Past:            # reuselib.reuse() calls `.get_model_matrix(data, context=...)` on what it is given: the used materializer answers for the spec
+        def __init__(self, m):
+            self.m = m
+
+        def get_model_matrix(self, data, context=None):
+            return self.m.get_model_matrix(spec)
+
+    for c in group:
+        m = spec.get_materializer(Udf, context={})
+        for call in c["hist"][:-1]:
+            with warnings.catch_warnings():
+                warnings.simplefilter("ignore")
+                try:            # what an earlier call answers is not this leg's matter (a fresh formula may well fail on the follow-up frame)
+                    m.get_model_matrix(spec if call == "<spec>" else call)
+                    prior_ok += 1
+                except Exception:  # noqa
+                    pass
+            n += 1
+        bad += reuselib.judge(c["last"], reuselib.reuse(_Past(m), Udf, "spec.get_model_matrix"), {**base, "spec": "spec", "path": "used materializer.get_model_matrix(spec) after " + json.dumps(c["hist"][:-1])}, "session:")
+        n += 1
+    return bad, n, prior_ok
+
+
+def session_leg(ctx: Ctx) -> None:
+    maxprior = 1 if ctx.quick else 2
+    out = workdir("c09s") / "sessions.ndjson"
+    out.unlink(missing_ok=True)
+    cfg = (f'SPECIFICATION SSpec\nCONSTANTS\n  Emit = TRUE\n  MaxSel = 0\n  MaxPrior = {maxprior}\n  Variant = "cleared"\n'
+           "INVARIANT SessionFree\nINVARIANT GuardOnUsedObject\nINVARIANT EmitSession\n")
+    r = run_tlc("MC_ReuseSession", cfg, tag="c09s", env={"OUT_FILE": str(out)}, timeout=3000)
+    if r.violated:
+        ctx.model_violation(r, "MC_ReuseSession")
+    ctx.add_tlc(r, f"one materializer object over the follow-up frame asked for <= {maxprior} matrices (fresh formulas, the recorded spec) before the recorded spec: "
+                   "the outcome of the replay does not depend on the past of the object, a kind change is an encoding error on a used object too")
+    # the law is not vacuous on the bounded family: TLC refutes the design in which evaluated factors survive a call
+    v = run_tlc("MC_ReuseSession", cfg.replace('"cleared"', '"kept"').replace("Emit = TRUE", "Emit = FALSE"), tag="c09s", timeout=3000)
+    if "SessionFree" not in v.violated:
+        raise MachineryError("MC_ReuseSession variant kept does not violate SessionFree: the bounded family is vacuous")
+    ctx.notes["session_model_variant_kept"] = "violates " + ",".join(v.violated)
+    cases = read_emitted(out)
+    out.unlink()
+    if len(cases) != r.distinct:
+        raise MachineryError(f"emission incomplete: {len(cases)} of {r.distinct}")
+    groups = {}
+    for c in cases:
+        if c["final"]:          # the other states are the prefixes of these
+            groups.setdefault((c["t"], c["u"], c["formula"]), []).append(c)
+    res = pmap("harness.props.c09", "replay_session", list(groups.values()), chunk=5)
+    judged = prior_ok = 0
+    for g, (bad, n, ok) in zip(groups.values(), res):
+        ctx.traces += n
+        ctx.evaluations += n
+        judged += len(g)
+        prior_ok += ok
+        if g[0]["u"] in (3, 4):
+            ctx.nontrivial.update(jhash(["session", c["t"], c["u"], c["formula"], c["hist"]]) for c in g if len(c["hist"]) > 1)
+        for b in bad:
+            ctx.violation({k: b.get(k) for k in ("formula", "t", "u", "spec", "path")} | {"clause": b["clause"]}, b, kind="replay")
+    ctx.require("C09 sessions: histories judged on one materializer object", judged, 330)
+    ctx.require("C09 sessions: earlier calls that answered with a matrix (a past that filled the caches)", prior_ok, 330)
 
 
 def run(ctx: Ctx) -> None:
@@ -32,6 +117,7 @@ def run(ctx: Ctx) -> None:
             ctx.violation({k: b.get(k) for k in ("formula", "t", "u", "spec", "path")} | {"clause": b["clause"]}, b, kind="replay")
     for c in [c for c in cases if c["u"] == 2 and c["formula"] == "A + a"][:1]:
         ctx.sample({"formula": c["formula"], "training_levels": c["levels"], "follow_up": c["follow"]["cols"]["A"]["cat"], "expected": c["whole"]})
+    session_leg(ctx)
     ctx.exhaustive = True
 
 
